@@ -101,7 +101,7 @@ class HComp(fm.TimeComponent):
     """
 
     def __init__(self, name, idx, start, steps, inputs=(), outputs=(), initial_pull=True,
-                 on_update=None, value=None, units="", in_units=None):
+                 on_update=None, value=None, units="", in_units=None, out_deps=None):
         super().__init__()
         self._name = name
         self.idx = idx
@@ -120,6 +120,9 @@ class HComp(fm.TimeComponent):
         self.in_units = in_units
         self._generated = False
         self.calls = []
+        # staged initial data: output -> inputs whose initial data it needs (default: all pulled inputs)
+        self.out_deps = out_deps
+        self._pushed0 = set()
 
     def step_at(self, k):
         return self.steps[k % len(self.steps)]
@@ -144,7 +147,17 @@ class HComp(fm.TimeComponent):
     def _connect(self, start_time):
         self.calls.append("connect")
         push = {}
-        if not self._generated:
+        if self.out_deps is not None:
+            for n in self.out_names:
+                deps = self.out_deps.get(n, self.in_names if self.initial_pull else [])
+                if n not in self._pushed0 and all(self.connector.in_data.get(i) is not None for i in deps):
+                    push[n] = self.tag(0)
+                    self._pushed0.add(n)
+            if not self._generated and self.connector.all_data_pulled:
+                self._generated = True
+                for n in (self.in_names if self.initial_pull else []):
+                    self.received.append((0, n, start_time, self.connector.in_data[n]))
+        elif not self._generated:
             if not self.initial_pull or self.connector.all_data_pulled:
                 push = {n: self.tag(0) for n in self.out_names}
                 self._generated = True
